@@ -28,7 +28,10 @@ LEAN_MODULES = ["LunaVerif.Props.C25", "LunaVerif.Lemmas.C25Tx12", "LunaVerif.Le
                 "LunaVerif.Lemmas.C25RxCdc", "LunaVerif.Lemmas.C25RxCdcStreams", "LunaVerif.Lemmas.C25RxCdcPacket",
                 "LunaVerif.Props.C25RxUsb", "LunaVerif.Lemmas.C25RxErrSeen", "LunaVerif.Props.C25RxUsbErr",
                 "LunaVerif.Props.C25Phy",
-                "LunaVerif.Lemmas.C25RxDriftFront", "LunaVerif.Lemmas.C25RxDriftBack", "LunaVerif.Props.C25RxDrift"]
+                "LunaVerif.Lemmas.C25RxDriftFront", "LunaVerif.Lemmas.C25RxDriftBack", "LunaVerif.Props.C25RxDrift",
+                "LunaVerif.Lemmas.C25RxCdcDriftFifo", "LunaVerif.Lemmas.C25RxCdcDriftStreams",
+                "LunaVerif.Lemmas.C25RxCdcDriftCross", "LunaVerif.Lemmas.C25RxCdcDriftPacket",
+                "LunaVerif.Props.C25RxUsbDrift"]
 DRIVER = "Driver/C25.lean"
 REQUIRED_THEOREMS = ["decode_encode", "no_seven_ones_on_wire", "stuff_error_detected", "never_drives_in_nondriving",
                      "pulls_follow_requests",
@@ -48,7 +51,11 @@ REQUIRED_THEOREMS = ["decode_encode", "no_seven_ones_on_wire", "stuff_error_dete
                      # the receive chain under clock drift (cell streams of 3/4/5 samples per bit)
                      "rx_pipeline_decodes_encode_drift", "stuff_error_detected_cycle_drift", "blockD", "front_blocksD",
                      "back_vblocks", "track_of_drift", "trackable_of_drift", "lockD", "floor_cells_driftOk",
-                     "rx_drift_nominal", "rx_packets_drift"]
+                     "rx_drift_nominal", "rx_packets_drift",
+                     # the clock-domain crossing under clock drift
+                     "fifo_write17", "fifo_window", "fifo_vstream", "outs_vstreams", "run_packetD_outs", "seg_append",
+                     "seg_start", "seg_bytes", "seg_last", "pays_spaced7_any", "split_last", "data_tail_seg",
+                     "packet_seg", "rx_delivers_to_usb_drift", "rx_packets_to_usb_drift"]
 RULE = ("tx: packets of 1..70 random / all-ones / stuffing-boundary bytes, tx_data garbage between packets, random "
         "inter-packet gaps, the producer holds each byte until tx_ready; the D+/D- waveform is compared bit by bit "
         "with the Lean `encode` and with an independent Python encoder.  txc/txp: the cycle-level Lean model of the "
@@ -125,6 +132,12 @@ ASSUMPTIONS = [
     "any constant phase; both FIFOs empty and settled when the packet starts (any pointer position / memory contents; "
     "true 15 cycles after reset and 27 idle cycles after the previous packet); the packet has at least one byte; "
     "Amaranth 0.5.9's AsyncFIFOBuffered as modelled in Model/Phy/FsRxCdc.lean (tied to the real one by the rxd cases)",
+    "end-to-end receive theorems under clock drift (rx_delivers_to_usb_drift, rx_packets_to_usb_drift): the drift + skew "
+    "envelope of rx_pipeline_decodes_encode_drift (DriftOk, SkewOk) and the environment of rx_delivers_to_usb (usb = "
+    "usb_io / 4 edge aligned, any constant phase; both FIFOs empty and settled at the packet start, any pointers / "
+    "memory; at least one byte; at least 4 (m + 7) + 3 idle samples, m >= 0, after the second SE0 before the next "
+    "packet); the two AsyncFIFOBuffered are the same register-level model `FsRxCdc.Fifo` as in the nominal-rate "
+    "theorems (abstraction = that model of Amaranth's FIFO, tied to the real one by the rxd cases)",
 ]
 PARTIAL = ("Transmit direction fully in theorems over the cycle-level model that is co-simulated against the gateware "
            "(tx_pipeline_emits_encode, each_byte_accepted_once, for all byte lists, all four clock phases, any number of "
@@ -146,12 +159,18 @@ PARTIAL = ("Transmit direction fully in theorems over the cycle-level model that
            "order at any J<->K transition (SkewOk), any sampling phase, any byte list, any number of packets: start, the bytes once "
            "and in order, end, no error (rx_pipeline_decodes_encode_drift), and a seventh 1 latches the error "
            "(stuff_error_detected_cycle_drift); exactly one strobe of the clock recovery per bit cell on a sample of "
-           "that cell (front_blocksD, track_of_drift; bit stuffing = a transition at least every 7 cells).  NOT in a "
-           "theorem (co-simulation only, incl. the drifting cell streams of the envelope): the CLOCK-DOMAIN CROSSING "
-           "under drift -- rx_delivers_to_usb / stuff_error_seen_by_usb (what the 12 MHz side sees behind the two "
-           "AsyncFIFOBuffered) assume exactly four samples per bit, because their FIFO-latency analysis is per bit time "
-           "of four cycles with a fixed usb clock phase; under drift the writes are 3..5 cycles apart and the usb edge "
-           "moves through the bit time; jitter beyond one sample per 8 cells, a skew between the two lines of more than one "
+           "that cell (front_blocksD, track_of_drift; bit stuffing = a transition at least every 7 cells).  The CLOCK-DOMAIN "
+           "CROSSING under drift is proved for correctly encoded packets: for every cell stream of that envelope, every "
+           "usb clock phase, any number of packets, the 12 MHz side sees start, each byte once and in order with strobe "
+           "while in-progress, end, no error while in progress, and both FIFOs are empty and settled again afterwards "
+           "(rx_delivers_to_usb_drift, rx_packets_to_usb_drift; each AsyncFIFOBuffered, the same register-level model as "
+           "in the nominal-rate theorems, never holds more than one entry: a write is shown at the 4th usb-edge cycle "
+           "after it and the FIFO is empty again 16 cycles after the write, fifo_write17, writes >= 24 cycles apart, "
+           "pays_spaced7_any).  NOT in a theorem (co-simulation only, incl. the drifting cell streams of the envelope): "
+           "that the 12 MHz side SEES the latched bit-stuffing error while rx_active is high under drift "
+           "(stuff_error_seen_by_usb assumes four samples per bit; stuff_error_detected_cycle_drift proves the latch in "
+           "the 48 MHz domain); "
+           "jitter beyond one sample per 8 cells, a skew between the two lines of more than one "
            "sample, glitches inside a cell; packets without any byte (SYNC directly followed by EOP) are outside "
            "rx_delivers_to_usb (start and end flags would be in flight in the flags FIFO together).")
 
